@@ -99,6 +99,9 @@ type LogicalRequest struct {
 	Body       []byte
 	Chunked    bool   // send the body with chunked transfer encoding (HTTP entry points only)
 	RemoteAddr string // ip:port of the directly connected peer
+	// EnvoyBodyAsString: Envoy hands the buffered body either as raw_body (with_request_body.pack_as_bytes: true, the
+	// default here) or - its own default - as the string member body. It never fills both.
+	EnvoyBodyAsString bool
 }
 
 type Entry string
@@ -218,22 +221,14 @@ func (lr LogicalRequest) CheckRequest() *envoy_auth.CheckRequest {
 		method = http.MethodGet
 	}
 
-	return &envoy_auth.CheckRequest{
-		Attributes: &envoy_auth.AttributeContext{
-			Request: &envoy_auth.AttributeContext_Request{
-				Http: &envoy_auth.AttributeContext_HttpRequest{
-					Method:  method,
-					Scheme:  scheme,
-					Host:    lr.Host,
-					Path:    lr.RawPath,
-					Query:   lr.RawQuery,
-					Headers: hdrs,
-					Body:    string(lr.Body),
-					RawBody: lr.Body,
-				},
-			},
-		},
+	httpReq := &envoy_auth.AttributeContext_HttpRequest{Method: method, Scheme: scheme, Host: lr.Host, Path: lr.RawPath, Query: lr.RawQuery, Headers: hdrs}
+	if lr.EnvoyBodyAsString {
+		httpReq.Body = string(lr.Body)
+	} else {
+		httpReq.RawBody = lr.Body
 	}
+
+	return &envoy_auth.CheckRequest{Attributes: &envoy_auth.AttributeContext{Request: &envoy_auth.AttributeContext_Request{Http: httpReq}}}
 }
 
 // Send runs the logical request through one entry point of the world.
